@@ -5,7 +5,7 @@
    Determined         no value of a not fully inferred type is bound / matched / dereferenced
    WfDecls            declared types are ground (true of every source text) *)
 From Coq Require Import ZArith List Bool.
-From Verif Require Import C03.Model C03.ProofsBase C03.ProofsExpr C03.ProofsStmt C03.ProofsProg C03.ProofsMatch C03.ProofsWithin C03.Witness.
+From Verif Require Import C03.Model C03.ProofsBase C03.ProofsExpr C03.ProofsStmt C03.ProofsProg C03.ProofsMatch C03.ProofsWithin C03.Witness C03.ProofsState.
 Import ListNotations.
 Open Scope N_scope.
 
@@ -107,6 +107,36 @@ Theorem C03_exhaustive_count_mutant_refuted :
   exists t ps, exhaustive_count empty_genv t ps = true /\ exhaustive empty_genv t ps = false /\ ~ covers empty_genv t ps.
 Proof. exact exhaustive_count_refuted. Qed.
 Print Assumptions C03_exhaustive_count_mutant_refuted.
+
+(* T6  non-interference: the walker model carries no state from one declaration to the next —
+       the events of a function depend only on the declared types/signatures and on its own body,
+       not on the bodies of the functions checked before it; a module's events are the
+       concatenation of its functions' events *)
+Theorem C03_fn_verdict_independent : forall fx deps p p' f,
+  p_enums p = p_enums p' -> p_models p = p_models p' ->
+  map fsig (p_funs p) = map fsig (p_funs p') ->
+  check_fn fx (genv_of deps p) f = check_fn fx (genv_of deps p') f.
+Proof. exact fn_verdict_independent. Qed.
+Print Assumptions C03_fn_verdict_independent.
+
+Theorem C03_prog_events_decompose : forall fx G p fs1 f fs2,
+  events_prog fx G (with_funs p (fs1 ++ f :: fs2)) =
+  events_prog fx G (with_funs p fs1) ++ check_fn fx G f ++ events_prog fx G (with_funs p fs2).
+Proof. exact prog_events_decompose. Qed.
+Print Assumptions C03_prog_events_decompose.
+
+(* M2  a walker that decides the mutability of `x += e` by a name-keyed, never scoped set of the
+       names declared `mut` so far: accepts `def f1(): mut v1 = 1   def f2(v1: int): v1 += 1`
+       (ill-typed; the faithful model reports it at the compound assignment) and its verdict on f2
+       depends on the body of f1 *)
+Theorem C03_mutname_mutant_refuted :
+  ~ ok (single w_mutname) /\
+  In (KImmutable, 3) (check real (single w_mutname)) /\
+  mutant_events real w_mutname = [] /\
+  map fsig (p_funs w_mutname) = map fsig (p_funs w_mutname') /\
+  In (KImmutable, 3) (mutant_events real w_mutname').
+Proof. exact mutname_mutant_refuted. Qed.
+Print Assumptions C03_mutname_mutant_refuted.
 
 (* G1, G2  regression witnesses of the two repaired classes: ill-typed, accepted before the
    repair, rejected now with the diagnostic at the offending name (inside the elif condition /
